@@ -35,7 +35,7 @@ def main() -> int:
         tb = traceback.format_exc()
         if isinstance(e, (KeyboardInterrupt, SystemExit)):
             ctx.inconclusive_(f"shard {spec['name']} interrupted")
-        elif raised_inside_lib(e) or isinstance(e, (ImportError, SyntaxError)) and "/btclib/" in tb:
+        elif raised_inside_lib(e):
             # the library blew up where the harness expected an answer or a library refusal
             ctx.violation(f"crash:{type(e).__name__}@{tb_origin(e)}",
                           f"uncaught {type(e).__name__} from the library in shard {spec['name']}: {e}",
